@@ -22,6 +22,8 @@ import (
 // return. Assignments whose right-hand side is not a call (err = nil, err = otherErr) are not definitions of
 // interest. errLookedAtExceptions lists the sites of today's tree where an error is deliberately not looked at.
 var errLookedAtExceptions = map[string]string{
+	"E2 dkim.RewriteBody:ToASCII1":          "a non-EAI message may not carry U-labels in d= / s=: when the domain or selector has no A-label form the message is deliberately left unsigned (return nil, no signature added – C08.R1 decides that nothing is added on that path); not signing is not a wrong signature",
+	"E2 dkim.RewriteBody:ToASCII2":          "a non-EAI message may not carry U-labels in d= / s=: when the domain or selector has no A-label form the message is deliberately left unsigned (return nil, no signature added – C08.R1 decides that nothing is added on that path); not signing is not a wrong signature",
 	"E2 lexer.next:ReadRune1":               "end of input ends the last token: the lexer reports the token it has (true) and the next call reports the end",
 	"E2 auth.AuthPlain:AuthPlain1":          "a provider's refusal is superseded by the next provider's answer; the last one is what the final return reports (success comes only from a nil answer: C14.R3b)",
 	"E2 smtp.releaseLimits:*":               "cannot fail: the very same string was split successfully when the permit was taken (C03.R5 / C03.immut)",
@@ -793,4 +795,5 @@ var propertyPackages = map[string][]string{
 	"C18": {"internal/dsn", "internal/target/queue"},
 	"C19": {"internal/smtpconn/pool", "internal/target/remote", "internal/smtpconn"},
 	"C20": {"framework/cfgparser", "framework/config/lexer"},
+	"C08": {"internal/modify/dkim", "internal/check/dkim", "internal/smtpconn"},
 }
